@@ -11,6 +11,10 @@ pub struct ExIoError(std::io::Error);
 #[verifier::external_type_specification]
 pub struct ExIoErrorKind(std::io::ErrorKind);
 pub uninterp spec fn io_kind(e: std::io::Error) -> std::io::ErrorKind;
+// `==` on io::ErrorKind (a fieldless derive(PartialEq) enum of std): structural equality
+pub axiom fn axiom_iokind_obeys() ensures <std::io::ErrorKind as vstd::std_specs::cmp::PartialEqSpec>::obeys_eq_spec();
+pub broadcast axiom fn axiom_iokind_eq(a: std::io::ErrorKind, b: std::io::ErrorKind)
+    ensures #[trigger] <std::io::ErrorKind as vstd::std_specs::cmp::PartialEqSpec>::eq_spec(&a, &b) == (a == b);
 #[verifier::allow(undeclared_external_trait)]
 pub assume_specification<T: std::cmp::Ord + std::marker::Destruct> [std::cmp::min] (a: T, b: T) -> (r: T)
     ensures T::obeys_cmp_spec() ==> r == (if a.cmp_spec(&b) == core::cmp::Ordering::Greater { b } else { a });
